@@ -8,6 +8,38 @@ use ckc_rs::cards::five::Five;
 use ckc_rs::cards::HandRanker;
 use serde_json::{json, Value};
 
+/// Absence soak: the boundary classes are asked a few times each (so that whatever remembers them is
+/// warm), one unrelated hand is asked 2^24 + 2^12 times, then every class is asked again; two rounds.
+fn absence_soak() -> Option<([u32; 5], String)> {
+    let t = poker::tables();
+    let reps: Vec<[u32; 5]> = (1..=7462usize).map(|v| words_of_ci(&t.rep[v])).collect();
+    let special: Vec<usize> = (1..=10usize).chain(1600..=1609).chain([323, 1599, 1610, 6186, 6190, 7462]).collect();
+    let mut bad: Option<([u32; 5], String)> = None;
+    'rounds: for round in 0..2 {
+        for o in &special {
+            for _ in 0..12 {
+                std::hint::black_box((Five::from(reps[o - 1]).is_straight(), Five::from(reps[o - 1]).is_flush()));
+            }
+        }
+        let z = reps[6500 + round * 300];
+        let zm = model(&z);
+        for _ in 0..((1u64 << 24) + (1 << 12)) {
+            let h = Five::from(z);
+            if h.is_straight() != zm.straight || h.is_flush() != zm.flush {
+                bad = Some((z, format!("during a soak of 2^24 lookups of [{}] a predicate changed its answer", card::render_hand(&z))));
+                break 'rounds;
+            }
+        }
+        for w in &reps {
+            if let Err((cl, m)) = examine(w) {
+                bad = Some((*w, format!("after the boundary classes had been asked 12 times each and [{}] 2^24 + 2^12 times: {}: {}", card::render_hand(&z), cl, m)));
+                break 'rounds;
+            }
+        }
+    }
+    bad
+}
+
 struct M {
     flush: bool,
     straight: bool,
@@ -107,6 +139,14 @@ impl Acc for A {
 pub fn run(run: &mut Run) -> PResult {
     run.rule = "every five-card subset in canonical order plus seeded slot orders (quick 1, thorough 4): is_flush / is_straight / is_straight_flush / is_wheel against definitions computed from the documented card fields, agreement with the category obtained by ranking the same hand, or_rank_bits / and_bits against their definitions, deprecated free functions against the methods. Non-trivial = straights, flushes and the hands with a repeated rank whose distinct ranks span exactly five places (where a span test and a real straight test differ); distinct = distinct subsets".into();
     super::regress::replay_dir(run, "C13", check_case)?;
+    // (runs first: later generators leave whatever the code under test remembers saturated)
+    if !run.is_twin() {
+        let bad = absence_soak();
+        run.generator("absence soak: boundary classes warmed, one unrelated hand asked 2^24 + 2^12 times, then every class", "call-count soak", None, 2 * ((1u64 << 24) + (1 << 12)), 0, "periodic maintenance of whatever remembers earlier answers; two rounds");
+        if let Some((w, m)) = bad {
+            return run.violation("C13.after_soak", &card::render_hand(&w), hand_json(&w), &m);
+        }
+    }
     {
         let t = poker::tables();
         let items: Vec<[u32; 5]> = (1..=7462usize).map(|v| words_of_ci(&t.rep[v])).collect();
@@ -294,6 +334,13 @@ pub fn run(run: &mut Run) -> PResult {
 }
 
 pub fn check_case(clause: &str, case: &Value) -> Result<(), String> {
+    if clause == "C13.after_soak" {
+        // the soak is deterministic on one thread: replayed as a whole
+        return match absence_soak() {
+            Some((_, m)) => Err(m),
+            None => Ok(()),
+        };
+    }
     if clause.ends_with(".soak") {
         return replay_soak(case, &soak_step);
     }
